@@ -81,7 +81,8 @@ fn candidates_of(case: &Case, oc: &OracleCell) -> Vec<Cand> {
                 None => Tri::Yes,
             };
             let b = oracle::brute_q(oc, &q, &case.cell.safety);
-            out.push(Cand { q, joint: j, legal, colliding: b.definite(), dont_care: b.any_dont_care() });
+            let (colliding, dont_care) = if case.cell.safety.mode == Mode::NoCheck { (vec![], false) } else { (b.definite(), b.any_dont_care()) };
+            out.push(Cand { q, joint: j, legal, colliding, dont_care });
         }
     }
     out
@@ -391,7 +392,9 @@ pub fn gen_case(seed: u64, shard: u64, run: u64, t: &Tier) -> Option<Case> {
     };
     let mut cell = gen::gen_robot(&mut w, &k);
     cell.safety = gen::gen_safety(&mut w, cell.tool.is_some(), cell.base.is_some(), k.max_env, false, k.sparse);
-    if cell.safety.mode == Mode::NoCheck {
+    // no-check mode is part of the property's domain: the robot's full check then reports every
+    // posture free, so every legal candidate has to be offered
+    if cell.safety.mode == Mode::NoCheck && knobs.chance(0.5) {
         cell.safety.mode = Mode::First;
     }
     // obstacles are placed around a NEIGHBOUR of the initial posture, so that single-joint
@@ -461,7 +464,7 @@ pub fn gen_case(seed: u64, shard: u64, run: u64, t: &Tier) -> Option<Case> {
         let n_env = cell.env.len();
         let mut t2 = gen::gen_safety(&mut w, cell.tool.is_some(), cell.base.is_some(), n_env, false, knobs.chance(0.5));
         t2.special.retain(|s| (s.0 as usize) < ENV0 + n_env && (s.1 as usize) < ENV0 + n_env);
-        if t2.mode == Mode::NoCheck {
+        if t2.mode == Mode::NoCheck && knobs.chance(0.5) {
             t2.mode = Mode::First;
         }
         // move the first obstacle onto (or away from) where a candidate puts the robot
